@@ -59,24 +59,31 @@ def decode(j):
 def key_i(i): return {"k": "i", "i": i, "x": ""}
 def key_s(x): return {"k": "s", "i": 0, "x": x}
 def r_const(v): return {"c": "const", "v": encode(v), "n": 0, "path": []}
-def r_param(n): return {"c": "param", "v": vnone(), "n": n, "path": []}
+def r_param(n, path=()): return {"c": "param", "v": vnone(), "n": n, "path": list(path)}
 def r_site(n, path=()): return {"c": "site", "v": vnone(), "n": n, "path": list(path)}
 def r_none(): return {"c": "none", "v": vnone(), "n": 0, "path": []}
 
 
 FLAG_VALUES = [0, "", [], None, False, 1, "x", [0], True]
 INT_VALUES = [0, 1, 2, 7]
+PAIR_VALUES = [(1, (2, 1)), (0, (5, 0)), ("a", (3, "a")), ([], (4, []))]      # the shape of pair(c, x) = (x, (c, x))
+
+
+def value_for(ptype, rng):
+    """An argument value for a parameter of the given type ("int", "any", "pair")."""
+    return rng.choice({"int": INT_VALUES, "pair": PAIR_VALUES}.get(ptype, FLAG_VALUES))
 BINOPS = ["add", "sub", "mul", "lt", "ge", "eq", "ne", "floordiv", "mod"]
 
 
 class Gen:
-    def __init__(self, rng, depth=0, max_depth=2, allow_flags=True, nparams=None, nsites=None, p_sub=0.2, p_param_ret=0.1, focus=None):
+    def __init__(self, rng, depth=0, max_depth=2, allow_flags=True, nparams=None, nsites=None, p_sub=0.2, p_param_ret=0.1, focus=None, first_ptype=None):
         self.rng = rng
         self.depth = depth
         self.max_depth = max_depth
         self.allow_flags = allow_flags
         self.p_sub = p_sub
         self.p_param_ret = p_param_ret
+        self.first_ptype = first_ptype
         self.focus = focus        # "flagged-sub": the first call site is a flagged nested DAG that hands a default straight back
         self.nparams = rng.randint(0, 3) if nparams is None else nparams
         self.nsites = rng.randint(1, 6) if nsites is None else nsites
@@ -87,26 +94,60 @@ class Gen:
         rng = self.rng
         params, ptypes = [], []
         for p in range(self.nparams):
-            t = rng.choice(["int", "int", "any"])
+            t = rng.choice(["int", "int", "any", "any", "pair"])
+            if p == 0 and self.first_ptype:
+                t = self.first_ptype
             has = rng.random() < 0.4
             if p > 0 and params[-1]["has"]:
                 has = True          # python: parameters after a defaulted one need defaults
-            dv = rng.choice(INT_VALUES) if t == "int" else rng.choice(FLAG_VALUES)
+            dv = value_for(t, rng)
             params.append({"has": has, "v": encode(dv)})
             ptypes.append(t)
         self.params, self.ptypes = params, ptypes
         self.ints = [r_param(p + 1) for p in range(self.nparams) if ptypes[p] == "int"]
         self.anys = [r_param(p + 1) for p in range(self.nparams)]
+        self.pairs = []         # references whose value has the shape (x, (c, x)): they can be indexed, also when they are parameters
+        for p in range(self.nparams):
+            if ptypes[p] == "pair":
+                self.pairs.append(r_param(p + 1))
+                # the parameter indexed in the body (p[0], p[1], p[1][0]): twice over when the argument is an indexed result
+                self.anys += [r_param(p + 1, [key_i(0)]), r_param(p + 1, [key_i(1)]), r_param(p + 1, [key_i(1), key_i(0)])]
+                self.ints.append(r_param(p + 1, [key_i(1), key_i(0)]))
         self.sites, self.subs = [], []
         self.flagged = False
         self.setups = []        # references to results of the setup call sites of this DAG
         self.flagpool = []      # elements of earlier results that are flag-like: several calls gated by parts of one result
         self.typed = {"s": [], "t": [], "l": [], "d": []}    # results that are a str / tuple / list / dict for sure
         self.whole_subs = []
+        if self.focus == "indexed-arg-sub" and self.depth == 0:
+            self.seed_indexed_pair()
         for _ in range(self.nsites):
             self.add_site()
         ret = self.gen_ret()
+        if self.focus == "indexed-arg-sub" and self.depth == 0 and len(self.sites) >= 3 and self.sites[2]["kind"] == "sub":
+            # what the nested DAG computed from its indexed parameter must be visible in the returned value
+            Q = self.subs[self.sites[2]["sub"] - 1]
+            shape = Q["ret"]["shape"]
+            outs = ([r_site(3)] if shape == "single" else
+                    [r_site(3, [key_s(k)]) for k in Q["ret"]["keys"]] if shape == "dict" else
+                    [r_site(3, [key_i(x)]) for x in range(len(Q["ret"]["refs"]))])
+            refs = outs + (ret["refs"][:2] if ret and ret["shape"] in ("tuple", "list") else [])
+            ret = {"shape": "tuple", "refs": refs, "keys": []}
         return {"params": params, "ptypes": ptypes, "sites": self.sites, "ret": ret, "subs": self.subs}
+
+    def seed_indexed_pair(self):
+        """s1 = pair(c, x); s2 = mix(c, s1); then a nested DAG called (no flag) with s2[1] for a parameter that its body indexes
+        again: the two index paths (the caller's and the body's) are applied in the order they were written."""
+        rng = self.rng
+        base = {"kind": "call", "kw": [], "active": r_none(), "unpack": 0, "sub": 0, "setup": False}
+        self.sites.append(dict(base, fn="pair", args=[self.unique_const(), self.int_ref()]))
+        self.anys += [r_site(1), r_site(1, [key_i(0)]), r_site(1, [key_i(1)])]
+        self.pairs.append(r_site(1))
+        self.sites.append(dict(base, fn="mix", args=[self.unique_const(), r_site(1), self.any_ref()]))
+        self.anys += [r_site(2), r_site(2, [key_i(1)])]
+        self.pairs.append(r_site(2, [key_i(1)]))
+        site = dict(base, fn="mix", args=[])
+        self.add_sub_site(site, 3, pair_arg=r_site(2, [key_i(1)]))
 
     def any_ref(self):
         rng = self.rng
@@ -202,12 +243,17 @@ class Gen:
         elif c < 0.3:
             site["fn"] = "mix"
             site["args"] = [self.unique_const()] + [self.any_ref() for _ in range(rng.randint(0, 2))]
+            if self.pairs and rng.random() < 0.35:
+                site["args"].append(rng.choice(self.pairs))
             if rng.random() < 0.3:
                 names = rng.sample(["ka", "kb"], rng.randint(1, 2))
                 site["kw"] = [{"name": nm, "ref": self.any_ref()} for nm in sorted(names)]
             self.anys.append(r_site(j))
             if unflagged:
                 self.typed["t"].append(r_site(j))
+                for x in range(1, len(site["args"])):
+                    if site["args"][x] in self.pairs:
+                        self.pairs.append(r_site(j, [key_i(x)]))        # an INDEXED result of the shape (x, (c, x))
             for x in range(1, len(site["args"])):
                 if rng.random() < 0.3:
                     self.anys.append(r_site(j, [key_i(x)]))
@@ -226,6 +272,11 @@ class Gen:
                 self.anys.append(r_site(j))
                 if unflagged:
                     self.typed["t"] += [r_site(j), r_site(j, [key_i(1)])]
+                    self.pairs.append(r_site(j))
+            if unflagged and is_int is not None:
+                # (c, x) is not of the shape (x, (c, x)); a pair of a pair is: pair(c, pair(..))[0]
+                if inner in self.pairs:
+                    self.pairs.append(first)
         elif c < 0.55:
             site["fn"] = "mkdict"
             inner = self.int_ref() if rng.random() < 0.5 else self.any_ref()
@@ -289,10 +340,10 @@ class Gen:
             self.ints = self.ints[:n_ints]
         self.sites.append(site)
 
-    def add_sub_site(self, site, j, force=False):
+    def add_sub_site(self, site, j, force=False, pair_arg=None):
         rng = self.rng
-        reuse = bool(self.subs) and rng.random() < 0.15 and not force
-        want_flag = (self.allow_flags and rng.random() < 0.25) or force
+        reuse = bool(self.subs) and rng.random() < 0.15 and not force and pair_arg is None
+        want_flag = ((self.allow_flags and rng.random() < 0.25) or force) and pair_arg is None
         if reuse:
             sub_idx = rng.randrange(len(self.subs)) + 1
             Q = self.subs[sub_idx - 1]
@@ -302,12 +353,14 @@ class Gen:
             # a flagged nested DAG often hands a parameter straight back: deactivated, that output is None as well
             ppr = 0.4 if want_flag else 0.1
             g = Gen(rng, self.depth + 1, self.max_depth, allow_flags=not want_flag and self.allow_flags,
-                    nparams=rng.randint(0, 3), nsites=rng.randint(1, 4), p_sub=self.p_sub, p_param_ret=ppr)
+                    nparams=rng.randint(0, 3) if pair_arg is None else rng.randint(1, 2), nsites=rng.randint(1, 4), p_sub=self.p_sub, p_param_ret=ppr,
+                    first_ptype="pair" if pair_arg is not None else None)
             Q = g.gen()
             tries = 0
             while Q["ret"] is None and tries < 20:
                 g = Gen(rng, self.depth + 1, self.max_depth, allow_flags=not want_flag and self.allow_flags,
-                        nparams=rng.randint(0, 3), nsites=rng.randint(1, 4), p_sub=self.p_sub, p_param_ret=ppr)
+                        nparams=rng.randint(0, 3) if pair_arg is None else rng.randint(1, 2), nsites=rng.randint(1, 4), p_sub=self.p_sub, p_param_ret=ppr,
+                        first_ptype="pair" if pair_arg is not None else None)
                 Q = g.gen()
                 tries += 1
             if Q["ret"] is None:
@@ -338,8 +391,16 @@ class Gen:
                 Q["ret"]["keys"] = ["k%d" % x for x in range(len(Q["ret"]["refs"]))]
             nargs = rng.randint(required, len(Q["params"]) - 1)
         args = []
+        if pair_arg is not None:
+            nargs = max(nargs, 1)
         for p in range(nargs):
-            args.append(self.int_ref() if Q["ptypes"][p] == "int" else self.any_ref())
+            if p == 0 and pair_arg is not None:
+                args.append(pair_arg)
+            elif Q["ptypes"][p] == "pair":
+                # an argument that is itself an indexed result (pair(..)[0] of a pair of a pair) whenever there is one
+                args.append(rng.choice(self.pairs) if self.pairs and rng.random() < 0.8 else r_const(rng.choice(PAIR_VALUES)))
+            else:
+                args.append(self.int_ref() if Q["ptypes"][p] == "int" else self.any_ref())
         site.update({"kind": "sub", "fn": "", "args": args, "sub": sub_idx})
         if want_flag:
             site["active"] = self.any_ref() if rng.random() < 0.7 else r_const(rng.choice(FLAG_VALUES[:5] if force else FLAG_VALUES))
@@ -376,6 +437,8 @@ class Gen:
         if shape == "none":
             return {"shape": "none", "refs": [], "keys": []}
         if shape == "single":
+            if self.depth == 0 and rng.random() < 0.04:
+                return {"shape": "single", "refs": [r_const(rng.choice([0, 5, "k", None, (1, 2)]))], "keys": []}      # return 5
             if self.depth == 0 and self.whole_subs and rng.random() < 0.35:
                 return {"shape": "single", "refs": [rng.choice(self.whole_subs)], "keys": []}      # return sub(...)
             return {"shape": "single", "refs": [rng.choice(site_refs)], "keys": []}
@@ -403,7 +466,7 @@ def gen_args(P, rng, how="random"):
     k = rng.randint(required, n) if rng.random() < 0.8 else n
     out = []
     for p in range(k):
-        out.append(rng.choice(INT_VALUES) if P["ptypes"][p] == "int" else rng.choice(FLAG_VALUES))
+        out.append(value_for(P["ptypes"][p], rng))
     return out
 
 
